@@ -575,6 +575,9 @@ func sameInts(a, b []int) bool {
 	return true
 }
 
+// maxQueryLen bounds every iteration the harness performs (no schedule holds more than a few hundred entities).
+const maxQueryLen = 20000
+
 // queryEntities lists the entities of a query in iteration order.
 func (x *World) queryEntities(f ecs.Filter) (res [][2]int, err string) {
 	res = [][2]int{}
@@ -586,6 +589,11 @@ func (x *World) queryEntities(f ecs.Filter) (res [][2]int, err string) {
 	q := x.w.Query(f)
 	for q.Next() {
 		res = append(res, ent(q.Entity()))
+		if len(res) > maxQueryLen {
+			// a query that does not end: close it, report, and let the comparison with the specification fail
+			q.Close()
+			return res[:16], "query does not terminate"
+		}
 	}
 	return res, ""
 }
